@@ -1,6 +1,7 @@
 package props
 
 import (
+	"runtime"
 	"bytes"
 	"encoding/json"
 	"errors"
@@ -32,6 +33,10 @@ type c08Case struct {
 	RmGaps  bool        `json:"rmgaps,omitempty"`
 	GapMut  int         `json:"gapmut,omitempty"`
 	RmAmb   bool        `json:"rmamb,omitempty"` // pdist: ambiguous positions removed from the normalisation
+	// Shared: one model value serves every DistMatrix call of the case (as build distboot does for its
+	// replicates); RangeAll: the calls use the range mode with both ranges = all rows
+	Shared   bool `json:"shared_model,omitempty"`
+	RangeAll bool `json:"range_all,omitempty"`
 	Cpus    int         `json:"cpus,omitempty"`
 	Ranges  []int       `json:"ranges,omitempty"` // r1min r1max r2min r2max
 	FailAt  string      `json:"fail_at,omitempty"` // "dist" | "seq"
@@ -150,8 +155,36 @@ func c08Rel(c *mc.Ctx, cs c08Case) {
 	n, L := len(cs.Seqs), len(cs.Seqs[0])
 	var base [][]float64
 	var err error
+	var shared dna.DistModel
+	if cs.Shared {
+		if shared, err = c08Model(cs.Model, cs.RmGaps, cs.GapMut); err != nil {
+			c.Fatal("model: %v", err)
+			return
+		}
+	}
 	dist := func(seqs []string, w []float64, cpus int) (m [][]float64, e error, pn bool) {
-		p, msg := mc.Guard(func() { m, e = c08Dist(seqs, w, cs.Model, cs.RmGaps, cs.GapMut, cpus) })
+		p, msg := mc.Guard(func() {
+			if !cs.Shared && !cs.RangeAll {
+				m, e = c08Dist(seqs, w, cs.Model, cs.RmGaps, cs.GapMut, cpus)
+				return
+			}
+			al, e1 := mkAlign(align.NUCLEOTIDS, namedRows(seqs...))
+			if e1 != nil {
+				e = e1
+				return
+			}
+			md := shared
+			if md == nil {
+				if md, e = c08Model(cs.Model, cs.RmGaps, cs.GapMut); e != nil {
+					return
+				}
+			}
+			lo, hi := -1, -1
+			if cs.RangeAll {
+				lo, hi = 0, len(seqs)-1
+			}
+			m, e = dna.DistMatrix(al, w, md, lo, hi, lo, hi, false, 0, cpus)
+		})
 		if p {
 			viol("panic", msg)
 		}
@@ -220,7 +253,10 @@ func c08Rel(c *mc.Ctx, cs c08Case) {
 	}
 	// thread counts: bit-identical
 	for _, cpus := range []int{2, 3} {
+		// the command line sets GOMAXPROCS to --threads: code that sizes its work by it is reached
+		old := runtime.GOMAXPROCS(cpus)
 		m, e, p := dist(cs.Seqs, nil, cpus)
+		runtime.GOMAXPROCS(old)
 		if p {
 			return
 		}
@@ -309,12 +345,53 @@ func c08Rel(c *mc.Ctx, cs c08Case) {
 		}
 	}
 	if distinct {
-		c.Nontrivial(fmt.Sprintf("rel|%v|%s|%v|%d", cs.Seqs, cs.Model, cs.RmGaps, cs.GapMut))
+		c.Nontrivial(fmt.Sprintf("rel|%v|%s|%v|%d|%v|%v", cs.Seqs, cs.Model, cs.RmGaps, cs.GapMut, cs.Shared, cs.RangeAll))
 	}
 	c.Outcome("rel:" + cs.Model + ":ok")
 	if distinct && L >= 2 {
 		c.Sample(map[string]any{"case": cs, "matrix": fmtMatrix(base)})
 	}
+}
+
+// c08Threads: the matrix for cpus = GOMAXPROCS = 1 and for 2, 3, 4 (GOMAXPROCS set like --threads does)
+// must be the same bits, with and without fractional weights.
+func c08Threads(c *mc.Ctx, cs c08Case) {
+	c.Eval()
+	L := len(cs.Seqs[0])
+	frac := make([]float64, L)
+	for i := range frac {
+		frac[i] = []float64{0.1, 0.7, 1.3, 0.3, 2.1}[i%5]
+	}
+	for wi, w := range [][]float64{nil, frac} {
+		var base [][]float64
+		for _, cpus := range []int{1, 2, 3, 4} {
+			var m [][]float64
+			var e error
+			old := runtime.GOMAXPROCS(cpus)
+			pn, msg := mc.Guard(func() { m, e = c08Dist(cs.Seqs, w, cs.Model, cs.RmGaps, cs.GapMut, cpus) })
+			runtime.GOMAXPROCS(old)
+			if pn {
+				c.Violation("C08/threads/panic/"+cs.Model, msg+": case "+jsonStr(cs), cs)
+				return
+			}
+			if e != nil {
+				c.Skip("threads: DistMatrix returned an error (not this property's business)")
+				return
+			}
+			if cpus == 1 {
+				base = m
+				continue
+			}
+			if c08Bits(m) != c08Bits(base) {
+				c.Violation("C08/threads/not-bit-identical/"+cs.Model, fmt.Sprintf("threads=%d (weights %v): %v vs threads=1: %v: case %s", cpus, w, m, base, jsonStr(cs)), cs)
+				return
+			}
+		}
+		if wi == 0 && base[0][1] != 0 && !math.IsNaN(base[0][1]) {
+			c.Nontrivial(fmt.Sprintf("threads|%v|%s", cs.Seqs, cs.Model))
+		}
+	}
+	c.Outcome("threads:" + cs.Model + ":same-bits")
 }
 
 // c08Singular: is some pair of the alignment at or beyond a singularity of the model's estimator?
@@ -781,6 +858,13 @@ func c08Tasks(tier string) []mc.Task {
 							}
 							for _, gm := range gms {
 								c08Rel(c, c08Case{Kind: "rel", Seqs: seqs, Model: model, RmGaps: rm, GapMut: gm})
+								if sh.n*sh.L <= 6 {
+									// one model value for all calls of the case; range mode
+									c08Rel(c, c08Case{Kind: "rel", Seqs: seqs, Model: model, RmGaps: rm, GapMut: gm, Shared: true})
+									if sh.n*sh.L <= 4 || sh.n == 3 {
+										c08Rel(c, c08Case{Kind: "rel", Seqs: seqs, Model: model, RmGaps: rm, GapMut: gm, RangeAll: true})
+									}
+								}
 							}
 						}
 						return !c.Expired()
@@ -821,6 +905,25 @@ func c08Tasks(tier string) []mc.Task {
 			}
 		}
 	}
+	// thread counts with GOMAXPROCS following (as --threads does) on alignments whose base frequencies are
+	// sums of thirds (three-fold codes B, V) and halves: a sum split over workers must not change a bit
+	for _, model := range []string{"f81", "f84", "tn93", "jc", "pdist"} {
+		model := model
+		const ta = "ACBV"
+		L := 4
+		if thorough {
+			L = 5
+		}
+		for i := 0; i < len(ta); i++ {
+			pf := ta[i : i+1]
+			ts = append(ts, mc.Task{Name: fmt.Sprintf("relthreads#%s/2x%d/%s", model, L, pf), Run: func(c *mc.Ctx) {
+				forEachStringLen(ta, 2*L, []byte(pf), func(s []byte) bool {
+					c08Threads(c, c08Case{Kind: "threads", Seqs: []string{string(s[:L]), string(s[L:])}, Model: model})
+					return !c.Expired()
+				})
+			}})
+		}
+	}
 	return ts
 }
 
@@ -830,7 +933,7 @@ func init() {
 		Level: "model_checking",
 		Rule: "schedule part: stateless DFS over all interleavings of the real dna.DistMatrix goroutines (main, producer, cpus workers; scheduling points at every go/channel/mutex/WaitGroup operation) with iterative preemption bounds 0,1,2 (quick) / 0..3 (thorough), for 3 sequences x cpus 1..3 x {k2p (with a +Inf pair), jc}, 4 sequences with overlapping ranges, 15 sequences (105 pairs > channel capacity); " +
 			"function-entry part: 3 sequences, cpus 2 (3 thorough), 5 models, every function entry of goalign (functions of >= 4 statements) an additional scheduling point, preemption bound 1; "+
-			"fault part: the same exploration with a DistModel that fails at each Distance call / each Sequence call in turn, and with one that fails at every Distance call from the k-th on (k=0,1; cpus 2,3; preemption bound 2/3); relational part: all alignments of shape 2x1,2x2,3x1,2x3,3x2 (+2x4,3x3 thorough; 3x3 over {A,C,T,-} for pdist and rawdist) over {A,C,G,T,-} x 7 models x rm-gaps x gap-count modes under every column permutation, replication (concat, weights) k=2,3, unit weights, reverse complement, every row permutation, cpus 1,2,3. " +
+			"fault part: the same exploration with a DistModel that fails at each Distance call / each Sequence call in turn, and with one that fails at every Distance call from the k-th on (k=0,1; cpus 2,3; preemption bound 2/3); relational part: all alignments of shape 2x1,2x2,3x1,2x3,3x2 (+2x4,3x3 thorough; 3x3 over {A,C,T,-} for pdist and rawdist) over {A,C,G,T,-} x 7 models x rm-gaps x gap-count modes under every column permutation, replication (concat, weights) k=2,3, unit weights, reverse complement, every row permutation, cpus 1,2,3 (GOMAXPROCS following, as --threads does); the shapes of <= 6 cells also with ONE model value serving all calls of a case (as build distboot does) and, for 2x1, 2x2, 3x1, 3x2, in range mode with both ranges = all rows; thread part: all 2x4 (thorough 2x5) alignments over {A,C,B,V} x {f81,f84,tn93,jc,pdist}, with and without fractional weights, threads = GOMAXPROCS = 1,2,3,4 must give the same bits. " +
 			"distinct_nontrivial counts distinct (case, schedule) executions of the schedule/fault parts plus relational cases whose matrix has a non-zero entry. states/transitions are nodes/edges of the schedule choice trees.",
 		Assumptions: []string{
 			"sequential consistency (Go programs without data races are SC; races are what the vector-clock check reports)",
@@ -847,6 +950,8 @@ func init() {
 			}
 			if cs.Kind == "rel" {
 				c08Rel(c, cs)
+			} else if cs.Kind == "threads" {
+				c08Threads(c, cs)
 			} else {
 				c08Sched(c, cs, true)
 			}
